@@ -62,54 +62,98 @@ def requires_auth_bounded(prop):
     return Lemma(f'{prop}.requires_auth', build, prop=prop)
 
 
-FINITE = {
-    'replicat/backends/local.py': {'backoff_on_oserror'},
-    'replicat/backends/s3c.py': {'backoff_on_httperror'},
-    'replicat/backends/b2.py': {'backoff_no_reauth', 'backoff_reauth'},
-}
+BACKENDS = ['replicat/backends/local.py', 'replicat/backends/s3c.py', 'replicat/backends/b2.py']
 CLASSES = {'replicat/backends/local.py': 'Local', 'replicat/backends/s3c.py': 'S3Compatible', 'replicat/backends/b2.py': 'B2'}
 PUBLIC = ['exists', 'upload', 'upload_stream', 'download', 'download_stream', 'list_files', 'delete']
-CARRIERS = {
-    ('replicat/backends/s3c.py', 'upload'): ['_put_object'],
-    ('replicat/backends/s3c.py', 'upload_stream'): ['_put_object_stream'],
-    ('replicat/backends/s3c.py', 'list_files'): ['_list_objects'],
-    ('replicat/backends/b2.py', 'list_files'): ['_list_file_names'],
-}
 
 
-def _max_tries_of(relpath, name):
-    """literal max_tries of a module-level backoff decorator (following functools.partial once)"""
-    node = source.module_assign(relpath, name)
-    for _ in range(3):
-        if isinstance(node, ast.Call):
-            for k in node.keywords:
-                if k.arg == 'max_tries':
-                    return _literal_int(k.value, relpath)
-            f = node.func
-            if isinstance(f, ast.Name):
-                node = source.module_assign(relpath, f.id)
-                continue
-        break
+def _backoff_budget(relpath, node, depth=0):
+    """node: the value of a module-level assignment.  -> ('backoff', max_tries or None) when it is (a functools.partial of / a call of a
+    partial of) backoff.on_exception / backoff.on_predicate, else None.  max_tries is followed through partials and named constants."""
+    if depth > 4 or not isinstance(node, ast.Call):
+        return None
+    head = ast.unparse(node.func)
+    mt = None
+    for k in node.keywords:
+        if k.arg == 'max_tries':
+            mt = _literal_int(k.value, relpath)
+            if mt is None:
+                mt = 'not-a-literal'
+    if head in ('backoff.on_exception', 'backoff.on_predicate', 'on_exception', 'on_predicate'):
+        return ('backoff', mt)
+    if head in ('functools.partial', 'partial') and node.args:
+        inner = ast.unparse(node.args[0])
+        if inner in ('backoff.on_exception', 'backoff.on_predicate', 'on_exception', 'on_predicate'):
+            return ('backoff', mt)
+        return None
+    if isinstance(node.func, ast.Name):
+        try:
+            base = source.module_assign(relpath, node.func.id)
+        except source.SelectorError:
+            return None
+        r = _backoff_budget(relpath, base, depth + 1)
+        if r is None:
+            return None
+        return ('backoff', mt if mt is not None else r[1])
     return None
+
+
+def backoff_decorators(relpath):
+    """{module-level name: max_tries} of every retry decorator the module defines (recognised by what it is, not by its name)"""
+    tree, _ = source.load_module(relpath)
+    out = {}
+    for n in tree.body:
+        if isinstance(n, ast.Assign) and len(n.targets) == 1 and isinstance(n.targets[0], ast.Name):
+            r = _backoff_budget(relpath, n.value)
+            if r is not None:
+                out[n.targets[0].id] = r[1]
+    return out
+
+
+def _under_budget(relpath, cls, method, finite, depth=0, seen=()):
+    """the method is decorated with a finite retry decorator, or everything it does with the backend goes through methods of the class
+    that are (the calls `self.<m>(...)` it makes, transitively)"""
+    try:
+        fn = source.select(relpath, f'{cls}.{method}')
+    except source.SelectorError:
+        return False
+    decs = {ast.unparse(d) for d in fn.decorator_list}
+    if decs & finite:
+        return True
+    if depth >= 3:
+        return False
+    me = fn.args.args[0].arg if fn.args.args else 'self'
+    called = []
+    for n in ast.walk(fn):
+        if isinstance(n, ast.Call) and isinstance(n.func, ast.Attribute) and isinstance(n.func.value, ast.Name) and n.func.value.id == me:
+            nm = n.func.attr
+            try:
+                source.select(relpath, f'{cls}.{nm}')
+            except source.SelectorError:
+                continue
+            if nm not in seen and nm != method:
+                called.append(nm)
+    called = [c for c in dict.fromkeys(called)]
+    carriers = [c for c in called if _under_budget(relpath, cls, c, finite, depth + 1, seen + (method,))]
+    return bool(carriers)
 
 
 def retry_finite(prop):
     def build(add):
-        for relpath, names in FINITE.items():
-            for nm in names:
-                mt = _max_tries_of(relpath, nm)
-                add(f'retry.{relpath.split("/")[-1]}.{nm}.max_tries_is_finite_literal', [], z3.BoolVal(mt is not None and 1 <= mt <= 10))
+        for relpath in BACKENDS:
+            short = relpath.split("/")[-1]
+            decs = backoff_decorators(relpath)
+            # the adapter defines retry decorators at all (vacuity guard of this lemma)
+            add(f'retry.{short}.retry_decorators_found', [], z3.BoolVal(len(decs) >= 1), meta={'decorators': sorted(decs)})
+            for nm, mt in sorted(decs.items()):
+                add(f'retry.{short}.max_tries_is_finite_literal[{len([x for x in sorted(decs) if x <= nm])}]', [],
+                    z3.BoolVal(isinstance(mt, int) and 1 <= mt <= 10), meta={'decorator': nm, 'max_tries': mt})
+            finite = {nm for nm, mt in decs.items() if isinstance(mt, int) and 1 <= mt <= 10}
             cls = CLASSES[relpath]
             for m in PUBLIC:
-                carriers = CARRIERS.get((relpath, m), [m])
-                ok = True
-                for c in carriers:
-                    fn = source.select(relpath, f'{cls}.{c}')
-                    decs = {ast.unparse(d) for d in fn.decorator_list}
-                    if not (decs & names):
-                        ok = False
-                # C12.retry.finite: every public transfer method runs (transitively) under a finite retry budget
-                add(f'retry.{relpath.split("/")[-1]}.{m}.under_finite_budget', [], z3.BoolVal(ok))
+                # C12.retry.finite: every public transfer method runs (itself or through the methods it delegates to) under a finite
+                # retry budget
+                add(f'retry.{short}.{m}.under_finite_budget', [], z3.BoolVal(_under_budget(relpath, cls, m, finite)))
     return Lemma(f'{prop}.retry', build, prop=prop)
 
 
@@ -289,7 +333,8 @@ def giveup_post(prop, where, kind):
 def giveup_units(prop):
     from vf.unit import Unit
     out = []
-    for relpath, decos in FINITE.items():
+    for relpath in BACKENDS:
+        decos = backoff_decorators(relpath)
         names = {_giveup_name(relpath, d) for d in sorted(decos)} - {None}
         where = relpath.split('/')[-1]
         for nm in sorted(names):
